@@ -468,7 +468,9 @@ def c02(obs: Observer):
     if haved != wantbp:
         k = next(k for k in sorted(set(wantbp) | set(haved)) if wantbp.get(k) != haved.get(k))
         return ('by-date-usage-differs', f'sum over days of aggregated_..._by_date_v3{k} = {haved.get(k, 0)}, expected {wantbp.get(k, 0)}')
-    if obs.op == 'compact':
+    if obs.op.startswith('compact '):
+        obs.tag('compaction-with-billing-updates-committed-between-its-transactions')
+    if obs.op == 'compact' or obs.op.startswith('compact '):
         obs.tag('compaction')
         if obs.prev is not None:
             per: Dict[Any, set] = {}
@@ -483,7 +485,7 @@ def c02(obs: Observer):
                     obs.tag('compaction-merges-into-existing-token-0-row:>=2-times')
         bad = [r for r in v.T['aggregated_billing_project_user_resources_v3'] + v.T['aggregated_billing_project_user_resources_by_date_v3']
                if r['token'] != 0]
-        if bad and obs.ans == 'ok 0':
+        if bad and obs.ans == 'ok 0' and obs.op == 'compact':      # (with concurrent billing updates new shards legitimately appear)
             return ('compaction-left-shards', f'after compaction a non-zero token shard remains: {bad[0]}')
     return None
 
